@@ -54,7 +54,24 @@ def run(ck: Checker):
             ck.check(not probs, 'C05.TPL', hmod, h, f'clauses of {t}/{n} equivalent to top <-> {t}(l1..l{n})',
                      '; '.join(probs[:3]) + (f' (+{len(probs) - 3} more rows)' if len(probs) > 3 else ''),
                      detail={'clauses': cnf}, construct=cons)
-    ck.floor('C05.TPL', 30)
+    # repeated operands: the same literal in several operand positions (XOR(x, x) = 0, AND(x, x) = x ...)
+    for t, (hmod, hname, vnode, knode) in table.items():
+        if t == 'INPUT' or semantics.ORACLE[t][0] == semantics.ANY:
+            continue
+        h = hmod.func(hname)
+        for n in [a for a in semantics.arities(t, 3) if a >= 2]:
+            probs = []
+            for pat in ct.patterns(n):
+                cnf = ct.clauses_for(repo, hmod, hname, pat, max(pat) + 1)
+                if isinstance(cnf, str):
+                    probs.append(f'operands {pat}: handler raises {cnf}')
+                    continue
+                pr = ct.check_pattern(t, pat, cnf)
+                if pr:
+                    probs.append(pr[0])
+            ck.check(not probs, 'C05.TPL', hmod, h, f'clauses of {t}/{n} stay exact when operands repeat (all equality patterns)',
+                     '; '.join(probs[:3]), construct=f'{hname} for {t} arity {n} with repeated operands')
+    ck.floor('C05.TPL', 40)
 
     # ---- C05.ALLOC / UNIT ------------------------------------------------
     _alloc_and_unit(ck, mod, fn)
